@@ -52,6 +52,18 @@ DEEP_COPIES = {"deepcopy_dict_of_arrays", "deepcopy"}
 ALIAS_OK: dict = {}  # (an earlier exemption for SimpleCache.__jacobian defended a defect: F32)
 
 
+def _guarded_leaves(e: ast.AST, lits: list | None = None):
+    """(arm, [(polarity, literal), ...]) for the arms of (nested) conditional expressions: the conditions that hold
+    when the arm is the value.  An expression that is not conditional is its own single arm."""
+    lits = list(lits or [])
+    if isinstance(e, ast.IfExp):
+        cl = conj_literals(e.test)
+        yield from _guarded_leaves(e.body, lits + cl)
+        yield from _guarded_leaves(e.orelse, lits + ([(not cl[0][0], cl[0][1])] if len(cl) == 1 else []))
+    else:
+        yield e, lits
+
+
 def check_execute(ctx: Ctx) -> None:
     f = ctx.index.method(BD, "BaseDiscipline", "execute")
     con = cname(BD, "BaseDiscipline", "execute")
@@ -59,6 +71,14 @@ def check_execute(ctx: Ctx) -> None:
     run = rules.self_calls(f, "_execute_monitored")
     ctx.need(len(run) == 1, "BaseDiscipline.execute: _execute_monitored call not found")
     rn = cfg.node_of(run[0])
+
+    def lit_text(e) -> str:
+        """Text of a condition; a flag kept in a local (`has_cache = self.cache is not None`) stands for its definition."""
+        if isinstance(e, ast.Name) and cfg.has(e):
+            alts = unfolded(f, e)
+            if alts and len(alts) == 1:
+                return norm_stmt(alts[0])
+        return norm_stmt(e)
 
     def cache_side(n, exact=False) -> bool | None:
         """The outcome of test ``n`` on which there IS a cache (None: not a test of the cache)."""
@@ -68,7 +88,7 @@ def check_execute(ctx: Ctx) -> None:
         if exact and len(lits) != 1:
             return None
         for p, e in lits:
-            txt = norm_stmt(e)
+            txt = lit_text(e)
             if txt in ("self.cache is not None", "self.cache"):
                 if p:
                     return True
@@ -93,7 +113,7 @@ def check_execute(ctx: Ctx) -> None:
         if not nested and cfg.kind[ln] == "test":
             # `if self.cache is not None and self.__can_load_cache(x):` -- the conjunction short-circuits
             lits_ = conj_literals(cfg.ast[ln].test)
-            pos = [i for i, (p_, e_) in enumerate(lits_) if (p_ and norm_stmt(e_) in ("self.cache is not None", "self.cache")) or (not p_ and norm_stmt(e_) == "self.cache is None")]
+            pos = [i for i, (p_, e_) in enumerate(lits_) if (p_ and lit_text(e_) in ("self.cache is not None", "self.cache")) or (not p_ and lit_text(e_) == "self.cache is None")]
             at = [i for i, (p_, e_) in enumerate(lits_) if any(sub is look[0] for sub in ast.walk(e_))]
             nested = bool(pos) and bool(at) and min(pos) < min(at) and isinstance(cfg.ast[ln].test, ast.BoolOp) and isinstance(cfg.ast[ln].test.op, ast.And)
         ok = ok and not cfg.reachable(rn, ln) and nested
@@ -132,7 +152,9 @@ def check_execute(ctx: Ctx) -> None:
     p = g.args.args[1].arg
     fresh = [s for s in stmts_of(g) if isinstance(s, ast.Assign) and p in names_in(s.value) and ((isinstance(s.value, ast.Call) and last_attr(s.value) in ("copy", "dict", "deepcopy", "deepcopy_dict_of_arrays", "DisciplineData")) or isinstance(s.value, (ast.Dict, ast.DictComp)))]
     rets = [s for s in stmts_of(g) if isinstance(s, ast.Return)]
-    ok = len(rets) == 1 and (any(dotted(rets[0].value) == dotted(c.targets[0]) for c in fresh) or (isinstance(rets[0].value, ast.Call) and last_attr(rets[0].value) in ("deepcopy", "deepcopy_dict_of_arrays")))
+    # every way out (a guard clause adds returns) hands back the fresh mapping
+    fresh_names = {dotted(c.targets[0]) for c in fresh} - {None}
+    ok = bool(rets) and all(r.value is not None and (dotted(r.value) in fresh_names or (isinstance(r.value, ast.Call) and last_attr(r.value) in ("deepcopy", "deepcopy_dict_of_arrays"))) for r in rets)
     ctx.ob("5.1-pristine", con2, ok, "the helper must return a fresh mapping, not the mapping it was given", node=(rets or [g])[0], stmt="returns a fresh mapping")
     dc = [c for c in walk_body(g) if isinstance(c, ast.Call) and last_attr(c) in ("deepcopy", "deepcopy_dict_of_arrays")]
     ctx.ob("5.1-pristine", con2, bool(dc), "self-coupled (input and output) values must be deep-copied: the run overwrites them in place", node=(dc or [g])[0], stmt="deepcopy of auto-coupled values")
@@ -245,7 +267,17 @@ def check_simple_cache(ctx: Ctx) -> None:
             elif len(cl) == 1:
                 lits.append((not cl[0][0], cl[0][1]))
         is_cached = any(p and isinstance(e, ast.Call) and last_attr(e) in ("__is_cached", "_SimpleCache__is_cached") for p, e in lits)
-        empty = any((not p) and isinstance(e, ast.Attribute) and e.attr in (own, mangle("SimpleCache", own)) for p, e in lits)
+        def is_own(e, own=own) -> bool:
+            return isinstance(e, ast.Attribute) and dotted(e.value) == "self" and e.attr in (own, mangle("SimpleCache", own))
+
+        # filled only when empty: under `if not self.<own>`, or by `self.<own> = self.<own> or <new>` / a conditional
+        # expression that keeps the field itself unless it is empty
+        kv = kept[0].value if isinstance(kept[0], ast.Assign) else None
+        if isinstance(kv, ast.BoolOp) and isinstance(kv.op, ast.Or) and is_own(kv.values[0]):
+            arms = [(x_, [(False, kv.values[0])]) for x_ in kv.values[1:]]
+        else:
+            arms = list(_guarded_leaves(kv)) if kv is not None else [(None, [])]
+        empty = all(is_own(arm) or any((not p) and is_own(e) for p, e in lits + more) for arm, more in arms)
         ctx.ob("5.3-entry", con, is_cached and empty, f"for an input that is already cached, {own} may only be filled when it is empty (never replaced)", node=kept[0])
         for fld in fields:
             if fld == own:
@@ -261,15 +293,157 @@ def check_simple_cache(ctx: Ctx) -> None:
     cfg = cfg_of(g)
     rets = [s for s in stmts_of(g) if isinstance(s, ast.Return)]
     # the returns that serve what is stored: through last_entry, or by reading the stored outputs / Jacobian directly
-    le = [r for r in rets if r.value is not None and any(isinstance(n_, ast.Attribute) and (n_.attr == "last_entry" or n_.attr.endswith(("__outputs", "__jacobian"))) for n_ in ast.walk(r.value))]
+    def serves(e) -> bool:
+        return any(isinstance(n_, ast.Attribute) and (n_.attr == "last_entry" or n_.attr.endswith(("__outputs", "__jacobian"))) for n_ in ast.walk(e))
+
+    le = [r for r in rets if r.value is not None and serves(r.value)]
     ok = len(le) >= 1
     for r in le:
         lits = []
         for t, v in branch_conditions(cfg, cfg.node_of(r)):
             cl = conj_literals(cfg.ast[t].test)
             lits += cl if v else ([(not cl[0][0], cl[0][1])] if len(cl) == 1 else [])
-        ok = ok and any(p and isinstance(e, ast.Call) and last_attr(e).endswith("__is_cached") for p, e in lits)
+        # `return stored if cached else empty`: each arm of a conditional expression is served under its own condition
+        for leaf, more in _guarded_leaves(r.value):
+            if serves(leaf):
+                ok = ok and any(p and isinstance(e, ast.Call) and (last_attr(e) or "").endswith("__is_cached") for p, e in lits + more)
     ctx.ob("5.4-compare", cname(SCF, "SimpleCache", "__getitem__"), ok, "the stored entry may only be served when the inputs are cached", node=(le or [g])[0])
+
+
+class _Confirmed:
+    """Which index expressions designate, at a program point of ``f``, an entry whose STORED INPUTS were compared equal
+    with the given inputs ``p_in`` (``compare_dict_of_arrays(p_in, self._read_data(<index>, Group.INPUTS))`` is known
+    to be true there).  The spelling is free: the comparison may sit in the test around the use, in an earlier guard
+    (``if not equal: continue``), read the stored inputs through a local; the confirmed index may be carried out of the
+    search in a local (``found = index; break`` ... ``if found is not None:``) or be the result of
+    ``next((i for i in indices if <comparison on i>), None)``."""
+
+    def __init__(self, f: ast.AST, p_in: str, need_tolerance: bool = False):
+        self.f, self.p_in, self.need_tol = f, p_in, need_tolerance
+        self.cfg = cfg_of(f)
+        in_comp = {id(n_) for c_ in ast.walk(f) if isinstance(c_, ast.comprehension) for n_ in ast.walk(c_.target)}
+        # bindings of the locals: name -> [assignment statement | None (any other kind of binding)]
+        self.bind: dict[str, list] = {p_: [None] for p_ in param_names(f)}
+        simple = {}
+        for st in stmts_of(f):
+            if isinstance(st, ast.Assign):
+                for t_ in st.targets:
+                    if isinstance(t_, ast.Name):
+                        simple[id(t_)] = st
+        for n_ in walk_body(f):
+            if isinstance(n_, ast.Name) and isinstance(n_.ctx, (ast.Store, ast.Del)) and id(n_) not in in_comp:
+                self.bind.setdefault(n_.id, []).append(simple.get(id(n_)))
+
+    def literals(self, at: int) -> list[tuple[bool, ast.AST, int]]:
+        """(polarity, condition, branch node) known at ``at``."""
+        out = []
+        for (t, v), b in self.cfg.branch.items():
+            if self.cfg.kind[t] != "test" or not self.cfg.dominates(b, at):
+                continue
+            cl = conj_literals(self.cfg.ast[t].test)
+            if v:
+                out += [(p, e, b) for p, e in cl]
+            elif len(cl) == 1:
+                out.append((not cl[0][0], cl[0][1], b))
+        return out
+
+    def compared_index(self, c: ast.AST, ctx_func: ast.AST | None) -> str | None:
+        """The index whose stored inputs the call ``c`` compares with the given inputs (None: not such a comparison)."""
+        if not (isinstance(c, ast.Call) and last_attr(c) == "compare_dict_of_arrays" and len(c.args) >= 2 and dotted(c.args[0]) == self.p_in):
+            return None
+        if self.need_tol and len(c.args) < 3 and not any(k.arg == "tolerance" for k in c.keywords):
+            return None
+        other = c.args[1]
+        alts = (unfolded(ctx_func, other) if ctx_func is not None and self.cfg.has(other) else None) or [other]
+        idx = set()
+        for o in alts:
+            if isinstance(o, ast.Call) and last_attr(o) == "_read_data" and len(o.args) >= 2 and (dotted(o.args[1]) or "").endswith("Group.INPUTS"):
+                idx.add(norm_stmt(o.args[0]))
+            else:
+                return None
+        return idx.pop() if len(idx) == 1 else None
+
+    def at(self, at: int) -> set[str]:
+        """The index expressions (text) confirmed by the conditions that hold at ``at``."""
+        out = set()
+        for p, e, _b in self.literals(at):
+            if not p:
+                continue
+            alts = (unfolded(self.f, e) if self.cfg.has(e) else None) or [e]
+            got = {self.compared_index(a_, self.f if a_ is e else None) for a_ in alts}
+            if len(got) == 1 and None not in got:
+                out |= got
+        return out
+
+    def not_none_since(self, name: str, at: int) -> int | None:
+        """The branch node from which ``name is not None`` is known at ``at``."""
+        for p, e, b in self.literals(at):
+            txt = norm_stmt(e)
+            if (txt == f"{name} is not None" and p) or (txt == f"{name} is None" and not p):
+                return b
+        return None
+
+    def holds(self, e: ast.AST, at: int, depth: int = 0) -> bool:
+        """``e`` (evaluated at ``at``) is the index of an entry whose stored inputs compared equal."""
+        if norm_stmt(e) in self.at(at):
+            return True
+        if not isinstance(e, ast.Name) or depth > 2:
+            return False
+        defs = self.bind.get(e.id, [])
+        if not defs or any(d is None for d in defs):
+            return False
+        nones = []
+        for d in defs:
+            v = d.value
+            if isinstance(v, ast.Constant) and v.value is None:
+                nones.append(d)
+            elif isinstance(v, ast.Name) and self.holds(v, self.cfg.node_of(d), depth + 1):
+                pass
+            elif self._next_confirmed(v):
+                if len(v.args) == 2:
+                    nones.append(d)
+            else:
+                return False
+        if nones:
+            b = self.not_none_since(e.id, at)
+            # known not to be None, and not reset to None between that test and the use
+            if b is None or any(self.cfg.dominates(b, self.cfg.node_of(d)) for d in nones if isinstance(d.value, ast.Constant)):
+                return False
+            if any(self.cfg.dominates(b, self.cfg.node_of(d)) for d in defs):
+                return False
+        return any(not isinstance(d.value, ast.Constant) for d in defs)
+
+    def _next_confirmed(self, v: ast.AST) -> bool:
+        """``next((i for i in <candidates> if <comparison on i>), None)`` (or without default: raises when none)."""
+        if not (isinstance(v, ast.Call) and dotted(v.func) == "next" and 1 <= len(v.args) <= 2 and not v.keywords and isinstance(v.args[0], ast.GeneratorExp)):
+            return False
+        if len(v.args) == 2 and not (isinstance(v.args[1], ast.Constant) and v.args[1].value is None):
+            return False
+        gen = v.args[0]
+        if len(gen.generators) != 1 or not isinstance(gen.generators[0].target, ast.Name) or not isinstance(gen.elt, ast.Name):
+            return False
+        g_ = gen.generators[0]
+        if gen.elt.id != g_.target.id:
+            return False
+        for cond in g_.ifs:
+            for p, lit in conj_literals(cond):
+                if p and self.compared_index(lit, None) == g_.target.id:
+                    return True
+        return False
+
+    def some_carried(self, at: int) -> bool:
+        """Some local known not to be None at ``at`` carries a confirmed index (``if found is not None: return False``)."""
+        names = set()
+        for p, e, _b in self.literals(at):
+            if isinstance(e, ast.Compare) and len(e.ops) == 1 and isinstance(e.left, ast.Name) and isinstance(e.comparators[0], ast.Constant) and e.comparators[0].value is None:
+                names.add(e.left.id)
+        return any(self.holds(ast.Name(id=n_, ctx=ast.Load()), at) for n_ in sorted(names))
+
+
+def _is_new_index(f: ast.AST, value: ast.AST) -> bool:
+    """``value`` is the (just incremented) maximum index, directly or through a local."""
+    alts = (unfolded(f, value) if cfg_of(f).has(value) else None) or [value]
+    return all(norm_stmt(a_) == "self._max_index.value" for a_ in alts)
 
 
 def check_full_cache_compare(ctx: Ctx) -> None:
@@ -282,31 +456,20 @@ def check_full_cache_compare(ctx: Ctx) -> None:
         hits = list(reads)
         if mname == "__ensure_input_data_exists":
             hits = [s for s in stmts_of(f) if isinstance(s, ast.Return) and isinstance(s.value, ast.Constant) and s.value.value is False]
-            hits += [s for s in stmts_of(f) if isinstance(s, ast.Assign) and (dotted(s.targets[0]) or "") == "self._last_accessed_index.value" and isinstance(s.value, ast.Name)]
+            # (the index of a NEW entry, `self._max_index.value` possibly through a local, is not a candidate)
+            hits += [s for s in stmts_of(f) if isinstance(s, ast.Assign) and (dotted(s.targets[0]) or "") == "self._last_accessed_index.value" and isinstance(s.value, ast.Name) and not _is_new_index(f, s.value)]
         ctx.need(hits, f"BaseFullCache.{mname}: no hit construct found")
+        # exact lookups of __getitem__ go through _read_input_output_data; its tolerance search must pass the tolerance
+        conf = _Confirmed(f, p_in, need_tolerance=mname == "__getitem__")
         for h in hits:
             hn = cfg.node_of(h)
-            ok = False
-            for t, v in branch_conditions(cfg, hn):
-                if not v or cfg.kind[t] != "test":
-                    continue
-                for c in ast.walk(cfg.ast[t].test):
-                    if isinstance(c, ast.Call) and last_attr(c) == "compare_dict_of_arrays" and len(c.args) >= 2 and dotted(c.args[0]) == p_in:
-                        other = c.args[1]
-                        # the compared inputs are those of the very index whose outputs are served
-                        idx = None
-                        if isinstance(other, ast.Call) and last_attr(other) == "_read_data":
-                            idx = dotted(other.args[0])
-                        else:
-                            for s in stmts_of(f):
-                                if isinstance(s, ast.Assign) and dotted(s.targets[0]) == dotted(other) and isinstance(s.value, ast.Call) and last_attr(s.value) == "_read_data" and (dotted(s.value.args[1]) or "").endswith("Group.INPUTS"):
-                                    idx = dotted(s.value.args[0])
-                        used = dotted(h.args[0]) if isinstance(h, ast.Call) else (dotted(h.value) if isinstance(h, ast.Assign) else idx)
-                        if idx is not None and used == idx:
-                            ok = True
-                        if mname == "__getitem__" and ok and len(c.args) < 3 and not any(k.arg == "tolerance" for k in c.keywords):
-                            # exact branch goes through _read_input_output_data; the tolerance branch must pass the tolerance
-                            ok = False
+            # the compared inputs are those of the very index whose outputs are served
+            if isinstance(h, ast.Call):
+                ok = conf.holds(h.args[0], hn)
+            elif isinstance(h, ast.Assign):
+                ok = conf.holds(h.value, hn)
+            else:
+                ok = bool(conf.at(hn)) or conf.some_carried(hn)
             ctx.ob("5.4-compare", con, ok, f"{mname}: a hash (or tolerance) candidate is used without comparing the given inputs with the stored inputs of the same index: two inputs with colliding hashes would share outputs", node=h)
     ctx.floor("5.4-compare", 8)
     # exact lookups go through the hash of the inputs and the confirming routine
@@ -326,6 +489,28 @@ def check_full_cache_compare(ctx: Ctx) -> None:
         conds = branch_conditions(cfg, cfg.node_of(wr[0]))
         ok = len(conds) == 1 and conds[0][1] and isinstance(cfg.ast[conds[0][0]].test, ast.Call) and last_attr(cfg.ast[conds[0][0]].test).endswith("__ensure_input_data_exists")
     ctx.ob("5.7-inputs-first", cname(BFC, "BaseFullCache", "_cache_inputs"), ok, "a new entry must first receive its inputs (at the new index): the entry hash written to the file is the hash of the first group written", node=(wr or [h])[0])
+
+
+def _entry_field_locals(ctx: Ctx, f: ast.AST, entry: str) -> dict[str, str]:
+    """{local: field} for the locals of ``f`` whose ONLY binding unpacks the CacheEntry ``entry`` (a named tuple):
+    ``inputs, outputs, jacobian = entry`` binds each local to the field at its position."""
+    cls = ctx.index.cls("caches/cache_entry.py", "CacheEntry")
+    fields = [b.target.id for b in cls.node.body if isinstance(b, ast.AnnAssign) and isinstance(b.target, ast.Name)]
+    bound: dict[str, list] = {}
+    for n in walk_body(f):
+        if isinstance(n, ast.Name) and isinstance(n.ctx, (ast.Store, ast.Del)):
+            bound.setdefault(n.id, []).append(None)
+    out: dict[str, str] = {}
+    for st in stmts_of(f):
+        if isinstance(st, ast.Assign) and len(st.targets) == 1 and isinstance(st.targets[0], (ast.Tuple, ast.List)) and dotted(st.value) == entry:
+            elts = st.targets[0].elts
+            if len(elts) != len(fields) or any(not isinstance(e, ast.Name) for e in elts):
+                continue
+            for e, fld in zip(elts, fields):
+                if len(bound.get(e.id, [])) == 1:
+                    out[e.id] = fld
+    # the entry itself must not be re-bound
+    return {} if entry in bound else out
 
 
 def check_jacobian_flag(ctx: Ctx) -> None:
@@ -368,13 +553,33 @@ def check_jacobian_flag(ctx: Ctx) -> None:
     ctx.ob("5.5-jacobian-cached", con2, ok, "a computed Jacobian must be cached with the inputs it was computed at", node=(cj or [g])[0])
     # Discipline._set_data_from_cache
     s = ctx.index.method(DI, "Discipline", "_set_data_from_cache")
-    jac_sets = [x for x in stmts_of(s) if isinstance(x, ast.Assign) and dotted(x.targets[0]) == "self.jac"]
-    ok = len(jac_sets) == 2 and any(dotted(x.value) == "cache_entry.jacobian" for x in jac_sets) and any(isinstance(x.value, ast.Dict) for x in jac_sets)
-    if not ok and len(jac_sets) == 1:
-        # `self.jac = cache_entry.jacobian or {}` / `... if cache_entry.jacobian else {}`
-        v_ = jac_sets[0].value
-        parts = v_.values if isinstance(v_, ast.BoolOp) and isinstance(v_.op, ast.Or) else ([v_.body, v_.orelse] if isinstance(v_, ast.IfExp) else [])
-        ok = len(parts) == 2 and any(dotted(x) == "cache_entry.jacobian" for x in parts) and any(isinstance(x, ast.Dict) and not x.keys for x in parts)
+    jac_sets = [x for x in stmts_of(s) if isinstance(x, ast.Assign) and any(dotted(t_) == "self.jac" for t_ in x.targets)]
+    entry = s.args.args[1].arg
+    from_entry = _entry_field_locals(ctx, s, entry)
+
+    def kinds(e) -> set | None:
+        """{"cached"} / {"empty"} / both for an expression that is the Jacobian of the entry or an empty one (None: other)."""
+        if dotted(e) == entry + ".jacobian" or (isinstance(e, ast.Name) and from_entry.get(e.id) == "jacobian"):
+            return {"cached"}
+        if (isinstance(e, ast.Dict) and not e.keys) or (isinstance(e, ast.Call) and dotted(e.func) == "dict" and not e.args and not e.keywords):
+            return {"empty"}
+        parts = e.values if isinstance(e, ast.BoolOp) and isinstance(e.op, ast.Or) else ([e.body, e.orelse] if isinstance(e, ast.IfExp) else [])
+        if len(parts) == 2:
+            ks = [kinds(x) for x in parts]
+            return None if None in ks else ks[0] | ks[1]
+        return None
+
+    cfg_s = cfg_of(s)
+    # every way through installs a Jacobian, and what is installed is the cached one or an empty one whatever the
+    # spelling (two branches, `a or {}`, a conditional expression, a local re-bound when empty)
+    seen = set()
+    ok = bool(jac_sets) and cfg_s.must_pass(cfg_s.entry, {cfg_s.node_of(x) for x in jac_sets})
+    for x in jac_sets:
+        for a_ in unfolded(s, x.value) or [x.value]:
+            k_ = kinds(a_)
+            ok = ok and k_ is not None
+            seen |= k_ or set()
+    ok = ok and seen == {"cached", "empty"}
     ctx.ob("5.5-restore", cname(DI, "Discipline", "_set_data_from_cache"), ok, "restoring from the cache must install the cached Jacobian or an empty one (never keep the previous Jacobian)", node=(jac_sets or [s])[0])
 
 
@@ -408,6 +613,149 @@ def check_hdf5_index(ctx: Ctx) -> None:
     ctx.ob("5.7-reopen", cname(HFS, "HDF5FileSingleton", "write_data"), ok, "the entry hash written to the file must be computed from the data being written at entry creation (the inputs)", node=(hashes or [w])[0])
 
 
+def _entry_edits(m: ast.AST):
+    """(sites that edit what was read from ``self.cache[...]``, number of candidate sites) in the function ``m``."""
+    from gv.dataflow import Forward
+
+    cfg = cfg_of(m)
+    n_sites = 0
+
+    def ev(e, env):
+        if isinstance(e, ast.Subscript) and dotted(e.value) == "self.cache":
+            return frozenset({"E"})
+        if isinstance(e, ast.Name):
+            return env.get(e.id, frozenset())
+        if isinstance(e, ast.Attribute):
+            b = ev(e.value, env)
+            if "E" in b and e.attr in ("inputs", "outputs", "jacobian"):
+                return frozenset({"D"})
+            return b & {"A"}
+        if isinstance(e, ast.Subscript):
+            b = ev(e.value, env)
+            return frozenset({"A"}) if b & {"D", "C"} else (frozenset({"D"}) if "E" in b else b & {"A"})
+        if isinstance(e, ast.Call):
+            la = last_attr(e)
+            recv = ev(e.func.value, env) if isinstance(e.func, ast.Attribute) else frozenset()
+            if la == "copy" and recv & {"D", "C"}:
+                return frozenset({"C"})
+            if la in ("dict",) and e.args and ev(e.args[0], env) & {"D", "C"}:
+                return frozenset({"C"})
+            if la in ("get", "pop", "setdefault") and recv & {"D", "C"}:
+                return frozenset({"A"})
+            return frozenset()
+        if isinstance(e, ast.IfExp):
+            return ev(e.body, env) | ev(e.orelse, env)
+        return frozenset()
+
+    def loop_elem(it, env):
+        if isinstance(it, ast.Call) and isinstance(it.func, ast.Attribute) and it.func.attr in ("items", "values") and ev(it.func.value, env) & {"D", "C"}:
+            return frozenset({"A"})
+        return frozenset()
+
+    def unpack(value_expr, env, i, n):
+        # (name, value) pairs of .items(): the value is a stored array
+        if isinstance(value_expr, ast.Call) and isinstance(value_expr.func, ast.Attribute) and value_expr.func.attr == "items" and ev(value_expr.func.value, env) & {"D", "C"}:
+            return frozenset({"A"}) if i == 1 else frozenset()
+        return frozenset()
+
+    fw = Forward(cfg, ev, init={}, loop_elem=loop_elem, unpack=unpack)
+    bad = []
+    for n in walk_body(m):
+        if isinstance(n, ast.Subscript) and isinstance(n.ctx, (ast.Store, ast.Del)):
+            t = fw.tags(n.value) if cfg.has(n) else frozenset()
+            n_sites += 1
+            if t & {"D", "A"}:
+                bad.append((n, "item assignment into " + ("a mapping of the stored entry" if "D" in t else "a stored array")))
+        elif isinstance(n, ast.AugAssign) and isinstance(n.target, ast.Name) and cfg.has(n):
+            t = fw.at(n).get(n.target.id, frozenset())
+            n_sites += 1
+            if "A" in t:
+                bad.append((n, "in-place operation on a stored array"))
+        elif isinstance(n, ast.Call) and isinstance(n.func, ast.Attribute) and n.func.attr in ("update", "pop", "clear", "setdefault", "popitem", "fill", "resize", "sort") and cfg.has(n):
+            t = fw.tags(n.func.value)
+            n_sites += 1
+            if t & {"D"} or (n.func.attr in ("fill", "resize", "sort") and "A" in t):
+                bad.append((n, f".{n.func.attr}() on the stored entry"))
+    return bad, n_sites
+
+
+def _stable_facts(m: ast.AST, node: ast.AST) -> dict[str, bool]:
+    """The conditions that hold at ``node`` AND have the same value wherever they are evaluated in one call of ``m``:
+    a flag kept in a local that is bound once (outside any loop) or a parameter never re-bound, and ``isinstance`` of
+    such a local / of a ``self`` attribute that ``m`` does not assign."""
+    from gv.props.shared import literal_facts
+
+    cfg = cfg_of(m)
+    if not cfg.has(node):
+        return {}
+    par = {}
+    for p_ in ast.walk(m):
+        for c_ in ast.iter_child_nodes(p_):
+            par[id(c_)] = p_
+    stores: dict[str, list] = {}
+    attr_stores = set()
+    for x in walk_body(m):
+        if isinstance(x, ast.Name) and isinstance(x.ctx, (ast.Store, ast.Del)):
+            stores.setdefault(x.id, []).append(x)
+        elif isinstance(x, ast.Attribute) and isinstance(x.ctx, (ast.Store, ast.Del)):
+            attr_stores.add(dotted(x))
+    params = set(param_names(m))
+
+    def in_loop(x) -> bool:
+        while id(x) in par:
+            x = par[id(x)]
+            if isinstance(x, (ast.For, ast.While, ast.AsyncFor, ast.comprehension)):
+                return True
+        return False
+
+    def stable_name(e) -> bool:
+        if not isinstance(e, ast.Name):
+            return False
+        ss = stores.get(e.id, [])
+        if e.id in params:
+            return not ss
+        return len(ss) == 1 and not in_loop(ss[0]) and isinstance(par.get(id(ss[0])), ast.Assign)
+
+    def stable(e) -> bool:
+        if stable_name(e):
+            return True
+        if isinstance(e, ast.Call) and dotted(e.func) == "isinstance" and len(e.args) == 2 and not e.keywords:
+            x = e.args[0]
+            d = dotted(x)
+            return stable_name(x) or (isinstance(x, ast.Attribute) and d is not None and d.startswith("self.") and not any(d == a_ or d.startswith((a_ or "?") + ".") for a_ in attr_stores))
+        return False
+
+    out = {}
+    for txt, val in literal_facts(cfg, cfg.node_of(node)).items():
+        try:
+            e = ast.parse(txt, mode="eval").body
+        except SyntaxError:
+            continue
+        if stable(e):
+            out[txt] = val
+    return out
+
+
+def _safe_under_its_conditions(m: ast.AST, site: ast.AST) -> bool:
+    """The edit at ``site`` does not touch the stored entry once the conditions under which it runs are taken into
+    account everywhere in the function: ``out = entry.outputs if simple else entry.outputs.copy()`` followed by
+    ``if not simple: out[k] = ...`` only ever edits the copy.  Only conditions that cannot change during the call
+    are used (see _stable_facts); the function is specialised on them and analysed again."""
+    from gv.shapes import specialise
+
+    facts = _stable_facts(m, site)
+    if not facts:
+        return False
+    for k_, n_ in enumerate(ast.walk(m)):
+        if not hasattr(n_, "_gv_uid"):
+            n_._gv_uid = (id(m), k_)
+    g = specialise(m, facts)
+    bad, _ = _entry_edits(g)
+    uid = site._gv_uid
+    twin = [n_ for n_ in ast.walk(g) if getattr(n_, "_gv_uid", None) == uid]
+    return bool(twin) and cfg_of(g).has(twin[0]) and not any(getattr(n_, "_gv_uid", None) == uid for n_, _w in bad)
+
+
 def check_hit_untouched(ctx: Ctx) -> None:
     """5.9: serving a hit does not edit the stored entry.
 
@@ -415,8 +763,6 @@ def check_hit_untouched(ctx: Ctx) -> None:
     hit that converts / renames / scales values inside them changes what the next hit returns.  Tags: D = a mapping of
     the entry, C = a shallow copy of one (its values are still the stored arrays), A = a stored array.
     """
-    from gv.dataflow import Forward
-
     n_sites = 0
     for rel, clsn in ((BD, "BaseDiscipline"), ("core/discipline/discipline.py", "Discipline")):
         cls = ctx.index.cls(rel, clsn)
@@ -425,64 +771,9 @@ def check_hit_untouched(ctx: Ctx) -> None:
             if not reads:
                 continue
             con = cname(rel, clsn, mname)
-            cfg = cfg_of(m)
-
-            def ev(e, env):
-                if isinstance(e, ast.Subscript) and dotted(e.value) == "self.cache":
-                    return frozenset({"E"})
-                if isinstance(e, ast.Name):
-                    return env.get(e.id, frozenset())
-                if isinstance(e, ast.Attribute):
-                    b = ev(e.value, env)
-                    if "E" in b and e.attr in ("inputs", "outputs", "jacobian"):
-                        return frozenset({"D"})
-                    return b & {"A"}
-                if isinstance(e, ast.Subscript):
-                    b = ev(e.value, env)
-                    return frozenset({"A"}) if b & {"D", "C"} else (frozenset({"D"}) if "E" in b else b & {"A"})
-                if isinstance(e, ast.Call):
-                    la = last_attr(e)
-                    recv = ev(e.func.value, env) if isinstance(e.func, ast.Attribute) else frozenset()
-                    if la == "copy" and recv & {"D", "C"}:
-                        return frozenset({"C"})
-                    if la in ("dict",) and e.args and ev(e.args[0], env) & {"D", "C"}:
-                        return frozenset({"C"})
-                    if la in ("get", "pop", "setdefault") and recv & {"D", "C"}:
-                        return frozenset({"A"})
-                    return frozenset()
-                if isinstance(e, ast.IfExp):
-                    return ev(e.body, env) | ev(e.orelse, env)
-                return frozenset()
-
-            def loop_elem(it, env):
-                if isinstance(it, ast.Call) and isinstance(it.func, ast.Attribute) and it.func.attr in ("items", "values") and ev(it.func.value, env) & {"D", "C"}:
-                    return frozenset({"A"})
-                return frozenset()
-
-            def unpack(value_expr, env, i, n):
-                # (name, value) pairs of .items(): the value is a stored array
-                if isinstance(value_expr, ast.Call) and isinstance(value_expr.func, ast.Attribute) and value_expr.func.attr == "items" and ev(value_expr.func.value, env) & {"D", "C"}:
-                    return frozenset({"A"}) if i == 1 else frozenset()
-                return frozenset()
-
-            fw = Forward(cfg, ev, init={}, loop_elem=loop_elem, unpack=unpack)
-            bad = []
-            for n in walk_body(m):
-                if isinstance(n, ast.Subscript) and isinstance(n.ctx, (ast.Store, ast.Del)):
-                    t = fw.tags(n.value) if cfg.has(n) else frozenset()
-                    n_sites += 1
-                    if t & {"D", "A"}:
-                        bad.append((n, "item assignment into " + ("a mapping of the stored entry" if "D" in t else "a stored array")))
-                elif isinstance(n, ast.AugAssign) and isinstance(n.target, ast.Name) and cfg.has(n):
-                    t = fw.at(n).get(n.target.id, frozenset())
-                    n_sites += 1
-                    if "A" in t:
-                        bad.append((n, "in-place operation on a stored array"))
-                elif isinstance(n, ast.Call) and isinstance(n.func, ast.Attribute) and n.func.attr in ("update", "pop", "clear", "setdefault", "popitem", "fill", "resize", "sort") and cfg.has(n):
-                    t = fw.tags(n.func.value)
-                    n_sites += 1
-                    if t & {"D"} or (n.func.attr in ("fill", "resize", "sort") and "A" in t):
-                        bad.append((n, f".{n.func.attr}() on the stored entry"))
+            bad, k_ = _entry_edits(m)
+            n_sites += k_
+            bad = [(n, what) for n, what in bad if not _safe_under_its_conditions(m, n)]
             for n, what in bad:
                 ctx.ob("5.9-hit-untouched", con, False, f"{what}: serving a hit edits the entry kept by the cache (a full cache without shared memory returns its own dictionaries), so the next hit returns something else", node=n)
             if not bad:
@@ -501,20 +792,41 @@ def check_last_accessed(ctx: Ctx) -> None:
     con = cname(BFC, "BaseFullCache", "__ensure_input_data_exists")
     cfg = cfg_of(f)
     sets = [s_ for s_ in stmts_of(f) if isinstance(s_, ast.Assign) and norm_stmt(s_.targets[0]) == "self._last_accessed_index.value"]
+    set_nodes = {cfg.node_of(s_) for s_ in sets}
     rets = [r for r in stmts_of(f) if isinstance(r, ast.Return)]
     ctx.need(rets, "__ensure_input_data_exists: no return")
+    conf = _Confirmed(f, f.args.args[1].arg)
+    # the ways out with what they answer (False: found, True: created): a `return <constant>`, or the assignment of
+    # the constant to the flag that a common `return flag` hands back (nothing sets the index in between)
+    ways = []
     for r in rets:
         rn = cfg.node_of(r)
-        dom = [s_ for s_ in sets if cfg.dominates(cfg.node_of(s_), rn)]
-        found = const_value(r.value, None) is False
-        ok = bool(dom)
+        if isinstance(r.value, ast.Constant) and isinstance(r.value.value, bool):
+            ways.append((r, r.value.value is False))
+            continue
+        defs = conf.bind.get(r.value.id, []) if isinstance(r.value, ast.Name) else []
+        flag = bool(defs) and all(d is not None and isinstance(d.value, ast.Constant) and isinstance(d.value.value, bool) for d in defs)
+        flag = flag and cfg.must_pass(cfg.entry, {cfg.node_of(d) for d in defs}, rn)
+        flag = flag and not any(sn != cfg.node_of(d) and cfg.reachable(cfg.node_of(d), sn) and cfg.reachable(sn, rn) for d in defs for sn in set_nodes)
+        if flag:
+            ways += [(d, d.value.value is False) for d in defs]
+        else:
+            ways.append((r, None))
+    ctx.need(any(w[1] is True for w in ways) and any(w[1] is False for w in ways), "__ensure_input_data_exists: the found / created ways out were not recognised")
+    ok = cfg.must_pass(cfg.entry, set_nodes)
+    ctx.ob("5.10-last-accessed", con, ok, "a way out of the routine leaves the last-accessed index as it was: the outputs / Jacobian cached next are written into ANOTHER entry (the one accessed before), and a later hit on that entry returns them", node=f, stmt="every way out sets the last accessed index")
+    for w, found in ways:
+        wn = cfg.node_of(w)
+        # the index in force on this way out: set on every path to it, and not set again before it
+        dom = [s_ for s_ in sets if cfg.dominates(cfg.node_of(s_), wn)]
+        dom = [s_ for s_ in dom if not any(o is not s_ and cfg.reachable(cfg.node_of(s_), cfg.node_of(o)) and cfg.reachable(cfg.node_of(o), wn) for o in sets)]
+        ok = bool(dom) and found is not None
         if ok and found:
             # the index stored is the one whose inputs were compared equal
-            loops = [lp for lp in stmts_of(f) if isinstance(lp, ast.For) and any(sub is r for sub in ast.walk(lp))]
-            ok = bool(loops) and any(dotted(s_.value) == dotted(loops[-1].target) for s_ in dom)
+            ok = any(conf.holds(s_.value, cfg.node_of(s_)) for s_ in dom)
         elif ok:
-            ok = any("_max_index" in norm_stmt(s_.value) for s_ in dom)
-        ctx.ob("5.10-last-accessed", con, ok, ("an existing entry was found" if found else "a new entry was created") + " but the last-accessed index is not set to it on this way out: the outputs / Jacobian cached next are written into ANOTHER entry (the one accessed before), and a later hit on that entry returns them", node=r, stmt=("found" if found else "created") + ": last accessed index designates the entry")
+            ok = any(_is_new_index(f, s_.value) for s_ in dom)
+        ctx.ob("5.10-last-accessed", con, ok, ("an existing entry was found" if found else "a new entry was created") + " but the last-accessed index is not set to it on this way out: the outputs / Jacobian cached next are written into ANOTHER entry (the one accessed before), and a later hit on that entry returns them", node=w, stmt=("found" if found else "created") + ": last accessed index designates the entry")
     ctx.floor("5.10-last-accessed", 3)
 
 
